@@ -300,14 +300,16 @@ func (h *c16CH) verify() {
 				h.taint[k] = false
 			}
 			if h.fake[key] != want[key] && h.knownF1 && h.fake[key] == 0 && h.prevCt[k] == 0 && cnt > 0 && !h.taint[k] {
+				// single revival: the revived node(s) carry no latency sample. A reload
+				// revives and re-kills several nodes in one step (floor of this group, floors
+				// and restores of other groups): there it is enough that some member lacks
+				// a sample - it may have been the floor candidate that left the bit stale.
 				none, some := true, false
 				for _, n := range cfg.members {
-					if h.alive[n][dom] {
-						if h.hasLatency(n, dom, cfg.policy.Policy) {
-							none = false
-						} else {
-							some = true
-						}
+					if !h.hasLatency(n, dom, cfg.policy.Policy) {
+						some = true
+					} else if h.alive[n][dom] {
+						none = false
 					}
 				}
 				if none || (h.after && some) {
@@ -538,8 +540,8 @@ func (h *c16CH) start() {
 	}
 	for ob := 0; ob < 2+len(h.gcfg); ob++ {
 		for slot := 0; slot < 6; slot++ {
-			if h.writes[uint32(ob*6+slot)] != 1 {
-				h.failf("outbound %d slot %d written %d time(s) at init, want once", ob, slot, h.writes[uint32(ob*6+slot)])
+			if h.writes[uint32(ob*6+slot)] < 1 || h.fake[ob*6+slot] != 1 {
+				h.failf("outbound %d slot %d not announced alive at init (writes=%d value=%d)", ob, slot, h.writes[uint32(ob*6+slot)], h.fake[ob*6+slot])
 			}
 		}
 	}
@@ -548,8 +550,8 @@ func (h *c16CH) start() {
 func c16CCase(t *rapid.T) {
 	dialer.ResetGlobalProxyStateForReload()
 	h := c16CNewH(t.Fatalf)
-	h.nn = rapid.IntRange(1, 3).Draw(t, "nodes")
-	ng := rapid.IntRange(1, 3).Draw(t, "groups")
+	h.nn = rapid.IntRange(1, 4).Draw(t, "nodes")
+	ng := rapid.IntRange(1, 4).Draw(t, "groups")
 	for g := 0; g < ng; g++ {
 		var cfg c16CCfg
 		for n := 0; n < h.nn; n++ {
@@ -580,7 +582,7 @@ func c16CCase(t *rapid.T) {
 	}
 	steps := rapid.IntRange(3, maxSteps).Draw(t, "steps")
 	fdom := rapid.IntRange(0, 5).Draw(t, "focus_dom")
-	events := []string{"forced", "forced", "forced", "kill_all", "traffic_fail", "traffic_ok", "traffic_ok", "fallback", "fallback_lat", "reload"}
+	events := []string{"forced", "forced", "forced", "kill_all", "kill_all", "traffic_fail", "traffic_ok", "traffic_ok", "fallback", "fallback_lat", "reload", "reload"}
 	for s := 0; s < steps; s++ {
 		ev := rapid.SampledFrom(events).Draw(t, "ev")
 		n := rapid.IntRange(0, h.nn-1).Draw(t, "n")
@@ -595,6 +597,11 @@ func c16CCase(t *rapid.T) {
 		case "kill_all":
 			for x := 0; x < h.nn; x++ {
 				h.evForced(x, dom, variant)
+			}
+			if rapid.Bool().Draw(t, "other_family_too") {
+				for x := 0; x < h.nn; x++ {
+					h.evForced(x, dom^1, variant)
+				}
 			}
 			h.class("all_nodes_dead_for_a_type")
 		case "traffic_fail":
